@@ -126,10 +126,18 @@ fn remove_unused_sub_elements(module: &mut Module) {
         .compu_vtab_range
         .retain(|item| used_compu_tabs.contains(&item.name));
 
-    // remove all unused UNITs
-    for unit in &module.unit {
-        if let Some(ref_unit) = &unit.ref_unit {
-            used_units.insert(ref_unit.unit.clone());
+    // remove all unused UNITs: a UNIT is used if a COMPU_METHOD or another used UNIT refers to it
+    loop {
+        let mut changed = false;
+        for unit in &module.unit {
+            if used_units.contains(&unit.name) {
+                if let Some(ref_unit) = &unit.ref_unit {
+                    changed |= used_units.insert(ref_unit.unit.clone());
+                }
+            }
+        }
+        if !changed {
+            break;
         }
     }
 
